@@ -16,6 +16,7 @@ import (
 type Fate struct {
 	Drop    bool
 	Dup     int           // extra copies
+	DupLag  time.Duration // extra copies arrive this much later
 	Delay   time.Duration // hold before delivery (reorders)
 	Replace []byte        // deliver these bytes instead (tamper)
 	From    net.Addr      // deliver with this source address instead
@@ -178,9 +179,13 @@ func (c *PacketConn) WriteTo(b []byte, addr net.Addr) (int, error) {
 		from = f.From
 	}
 	for k := 0; k <= f.Dup; k++ {
-		if f.Delay > 0 {
+		lag := f.Delay
+		if k > 0 {
+			lag += f.DupLag
+		}
+		if lag > 0 {
 			dd := d
-			time.AfterFunc(f.Delay, func() {
+			time.AfterFunc(lag, func() {
 				n.mu.Lock()
 				n.deliverLocked(dd, from)
 				n.mu.Unlock()
